@@ -50,7 +50,10 @@ func allEntries() []*Entry {
 			e.AllocC = 200
 		}
 		if e.AllocK == 0 {
-			e.AllocK = 1 << 20
+			e.AllocK = 4 << 20 // constant work of one call (error values, log formatting, fixed-size tables) stays below 2.5 MB
+		}
+		if strings.Contains(e.Name, "Receipt") {
+			e.AllocC = 4000 // an empty stored receipt (2 bytes on the wire) decodes to a Receipt with a 256-byte bloom, log slice, big.Ints: ~11 KB
 		}
 	}
 	return es
